@@ -63,6 +63,16 @@ func itoa(i int) string { b, _ := json.Marshal(i); return string(b) }
 
 var env container.Environment
 
+// withRaw appends explicitly given entries (resource, soft, hard) to a prepared list: callers of the launcher may pass any number
+func withRaw(l []rlimit.RLimit, c map[string]any) []rlimit.RLimit {
+	raw, _ := c["raw"].([]any)
+	for _, e := range raw {
+		t := e.([]any)
+		l = append(l, rlimit.RLimit{Res: int(hx.Int(t[0])), Rlim: syscall.Rlimit{Cur: uint64(hx.Int(t[1])), Max: uint64(hx.Int(t[2]))}})
+	}
+	return l
+}
+
 func main() {
 	hx.Init()
 	scratch := os.Getenv("VERIF_SCRATCH")
@@ -148,7 +158,7 @@ func main() {
 			switch c["runner"].(string) {
 			case "ptrace":
 				r := &ptrace.Runner{Args: append([]string{hx.Target()}, args...), Env: []string{}, WorkDir: scratch,
-					Limit: limit, Seccomp: hx.AllowAll(), Handler: allowAll{}, Files: files, RLimits: rls.PrepareRLimit()}
+					Limit: limit, Seccomp: hx.AllowAll(), Handler: allowAll{}, Files: files, RLimits: withRaw(rls.PrepareRLimit(), c)}
 				res = r.Run(ctx)
 			case "ns":
 				r, err := hx.NsRunner(scratch, append([]string{"/vb/probe_target"}, args...))
@@ -158,7 +168,7 @@ func main() {
 				defer os.RemoveAll(r.Root)
 				r.Limit = limit
 				r.Files = files
-				r.RLimits = rls.PrepareRLimit()
+				r.RLimits = withRaw(rls.PrepareRLimit(), c)
 				res = r.Run(ctx)
 			case "container":
 				if env == nil {
@@ -168,7 +178,7 @@ func main() {
 					}
 				}
 				p := container.ExecveParam{Args: append([]string{"/vb/probe_target"}, args...), Env: []string{"PATH=/usr/bin:/bin"},
-					Files: files, RLimits: rls.PrepareRLimit()}
+					Files: files, RLimits: withRaw(rls.PrepareRLimit(), c)}
 				res = env.Execve(ctx, p)
 			}
 			buf.W.Close()
